@@ -6,6 +6,14 @@ namespace Sucds
 /-- `utils::needed_bits` -/
 def neededBits (c : Cfg) (x : Nat) : Nat := match msbW c x with | some n => n + 1 | none => 1
 
+/-- `CompactVector::from_slice(vals)` for `usize` values: `none` = `Err` (the `?` on `with_capacity`) -/
+def CV.fromSlice (c : Cfg) (vals : List Nat) : R (Option CV) :=
+  if vals.isEmpty then .ok (some CV.default)
+  else match CV.new (neededBits c (vals.foldl max 0)) with
+    | none => .ok none
+    | some v0 => (v0.extend vals).bind fun r =>
+        if r.2 then .ok (some r.1) else .error .unwrapNone        -- `push_int(x).unwrap()`
+
 /-- value-level push loop shared by both DACs builders: splits `x` along `widths`, returns the chunk
     for every level reached and the continuation flag pushed on it (`none` on the last level) -/
 def dacSplit (widths : List Nat) (x : Nat) : List (Nat × Option Bool) :=
